@@ -51,10 +51,23 @@ EXPECTED_PROBES = [
 ]
 
 
+REAL_PATTERNS = ["sorted", "sorted_prefix", "random_late_rare", "categorical"]
+
+
 def classes(tier):
     vds = VD_QUICK if tier == "quick" else VD_THOROUGH
     out = [[v, f] for v in vds for f in FAMS]
+    out += [["real", p] for p in REAL_PATTERNS]
     return out
+
+
+def class_weights(tier):
+    vds = VD_QUICK if tier == "quick" else VD_THOROUGH
+    n_small = len(vds) * len(FAMS)
+    # real-scale runs cost seconds each: 16 of 5000 in quick, 0.75% in thorough
+    real_share = 0.0032 if tier == "quick" else 0.0075
+    w_small = (1.0 - real_share) / n_small
+    return [w_small] * n_small + [real_share / len(REAL_PATTERNS)] * len(REAL_PATTERNS)
 
 
 def n_runs(tier):
@@ -116,6 +129,8 @@ def _repr_probe(gb, info, st=None, ds=None, lay=None):
 
 
 def run_one(scen: Choices, sched: Choices, cls, cfg):
+    if cls[0] == "real":
+        return run_real(scen, sched, cls, cfg)
     vdtype, family = cls
     tier = cfg.get("tier", "quick")
     ds = gen.gen_dataset(scen, vdtype, tier, max_n=200 if tier == "thorough" else 120)
@@ -256,4 +271,205 @@ def run_one(scen: Choices, sched: Choices, cls, cfg):
             "fault": fault,
             "outcomes": [[(o[0], compare.short(o[1], 200)) for o in tup] for tup in results_digest],
         }
+    return rec
+
+
+# ---------------------------------------------------------------------------
+# real-scale arm: nothing rescaled except the pool and cpu_count
+# ---------------------------------------------------------------------------
+
+REAL_SIZES = [999_999, 1_000_000, 1_000_001, 1_999_999, 2_000_001, 2_999_999, 3_000_001, 4_000_000]
+REAL_OPS = ["min", "max", "first", "last", "sum", "count", "size", "mean"]
+
+
+def _real_dataset(sc):
+    import pandas as pd
+    import pyarrow as pa
+
+    rng = np.random.RandomState(sc["dseed"])
+    n, g = sc["n"], sc["g"]
+    pat = sc["pattern"]
+    if pat == "sorted":
+        codes = np.sort(rng.randint(0, g, size=n))
+    elif pat == "sorted_prefix":
+        m = int(n * sc["prefix_eighths"] / 8)
+        codes = rng.randint(0, g, size=n)
+        codes[:m] = np.sort(codes[:m])
+        if m < n:
+            codes[m] = 0
+    elif pat == "random_late_rare":
+        codes = rng.randint(0, max(g - 1, 1), size=n)
+        codes[-sc["rare_rows"] :] = g - 1
+    else:  # categorical (never chunked): sorted or random codes
+        codes = rng.randint(0, g, size=n)
+        if sc["cat_sorted"]:
+            codes = np.sort(codes)
+    if pat == "categorical":
+        keys = pd.Categorical.from_codes(codes.astype("int16"), categories=[f"c{j:02d}" for j in range(g)] + ["unused"])
+    elif sc["key_float"]:
+        keys = codes.astype(np.float64) + 0.5
+        if sc["key_nan"]:
+            keys[rng.randint(0, n, size=5)] = np.nan
+    else:
+        keys = codes.astype(np.int64) * 10
+    vd = sc["vdtype"]
+    if vd == "float64":
+        vals = rng.randint(-50, 50, size=n).astype(np.float64)
+        vals[rng.randint(0, n, size=n // 20)] = np.nan
+        if sc["null_block"]:
+            vals[: n // 3] = np.nan
+    elif vd == "int64":
+        vals = rng.randint(-50, 50, size=n).astype(np.int64)
+    else:
+        vals = (rng.randint(0, 10**6, size=n).astype(np.int64) * 1000 + 1_600_000_000_000_000_000).view("datetime64[ns]")
+    return keys, vals
+
+
+def _real_values(vals, sc):
+    import pyarrow as pa
+
+    if sc["val_cuts"] and vals.dtype.kind == "f":
+        n = len(vals)
+        cuts = sorted(int(n * c / 1000) for c in sc["val_cuts"])
+        bounds = [0] + cuts + [n]
+        return pa.chunked_array([pa.array(vals[a:b]) for a, b in zip(bounds[:-1], bounds[1:])])
+    return vals
+
+
+def _real_mask(sc, n):
+    mk = sc["mask"]
+    if mk == "none":
+        return None
+    if mk == "bool":
+        rng = np.random.RandomState(sc["dseed"] + 7)
+        m = rng.rand(n) < 0.5
+        if sc["mask_block"]:
+            m[: n // 2] = False
+        return m
+    if mk == "slice":
+        q = n // 4
+        a = [None, q, q - 1, q + 1, 2 * q, -q][sc["slice_a"]]
+        b = [None, 3 * q, 3 * q + 1, -1, n - q][sc["slice_b"]]
+        return slice(a, b)
+    rng = np.random.RandomState(sc["dseed"] + 9)
+    pos = rng.randint(0, n, size=1000)
+    return np.concatenate([pos, pos[:10]])
+
+
+def run_real(scen: Choices, sched: Choices, cls, cfg):
+    from groupby_lib.groupby.core import GroupBy
+
+    s = scen
+    sc = {"pattern": cls[1]}
+    sc["n"] = REAL_SIZES[s.draw(len(REAL_SIZES))]
+    sc["g"] = [10, 3, 50][s.draw(3)]
+    sc["dseed"] = s.draw(10_000)
+    sc["prefix_eighths"] = [3, 1, 2, 5][s.draw(4)]
+    sc["rare_rows"] = [1, 3, 1000][s.draw(3)]
+    sc["cat_sorted"] = bool(s.draw(2))
+    sc["key_float"] = s.chance(1, 4)
+    sc["key_nan"] = s.chance(1, 2)
+    sc["vdtype"] = s.weighted([(3, "float64"), (1, "int64"), (1, "datetime")])
+    sc["null_block"] = s.chance(1, 3)
+    sc["val_cuts"] = sorted(set(1 + s.draw(999) for _ in range(s.draw(4))))
+    sc["mask"] = s.weighted([(4, "none"), (2, "bool"), (2, "slice"), (1, "positions")])
+    sc["mask_block"] = s.chance(1, 2)
+    sc["slice_a"], sc["slice_b"] = s.draw(6), s.draw(5)
+    sc["ops"] = [REAL_OPS[s.draw(len(REAL_OPS))] for _ in range(2 + s.draw(2))]
+    sc["transform"] = s.chance(1, 6)
+    sc["cpu"] = s.weighted([(3, 4), (1, 1), (1, 2), (1, 16), (1, 64)])
+    sc["workers"] = s.weighted([(4, None), (1, 1), (1, 2), (1, 3)])
+    fault = gen.gen_fault(s) if cfg.get("fault_mode") else None
+
+    rec = {"violations": [], "probes": ["real_scale"], "faults": [], "interleavings": [], "ticks": 0, "nontrivial": False, "n_pools": 0}
+    keys, vals = _real_dataset(sc)
+    n = sc["n"]
+    mask = _real_mask(sc, n)
+    probes = set(rec["probes"])
+    real_st = {"threshold": None, "rows_per_thread": None, "key_chunks": None, "numba_threads": 2}
+    base_st = {"threshold": 10**12, "rows_per_thread": 10**12, "key_chunks": None, "numba_threads": 1}
+    events, results = [], []
+    max_tasks, not_fifo = 0, False
+
+    def execute(st, values, ctx, opname):
+        from . import seams
+
+        seams.set_knobs(threshold=st["threshold"], rows_per_thread=st["rows_per_thread"], key_chunks=st["key_chunks"], numba_threads=st["numba_threads"])
+        info = {}
+
+        def go():
+            gb = GroupBy(keys)
+            info["gb"] = gb
+            kw = dict(mask=mask, transform=sc["transform"])
+            if opname == "size":
+                r = gb.size(**kw)
+            else:
+                r = getattr(gb, opname)(values, **kw)
+            if sc["transform"]:
+                # hash large row-aligned outputs instead of listing them
+                a = np.asarray(r)
+                if a.dtype.kind == "f":
+                    a = np.where(np.isnan(a), -12345.678, a)
+                return {"digest": hashlib.blake2b(np.ascontiguousarray(a).view(np.uint8).tobytes(), digest_size=12).hexdigest(), "len": len(a)}
+            return r
+
+        with executor.use_context(ctx):
+            out = _outcome(go)
+        return out, info
+
+    for opname in sc["ops"]:
+        site = {"property": PROP, "op": opname + ("_transform" if sc["transform"] else "")}
+        features = {"key_kind": "real_" + sc["pattern"], "mask": sc["mask"], "vdtype": sc["vdtype"], "n": n, "null_keys": "present" if (sc["key_float"] and sc["key_nan"] and sc["pattern"] != "categorical") else "none"}
+
+        def add(check, outcome, expected, actual, **kw):
+            rec["violations"].append({"site": dict(site, check=check, outcome=outcome, **kw), "features": dict(features), "expected": expected, "actual": actual})
+
+        ctx0 = executor.SimContext(sched=Choices(replay=[]), workers=1, cpu_count=4)
+        base, _ = execute(base_st, vals, ctx0, opname)
+        ctx = executor.SimContext(sched=sched, workers=sc["workers"], cpu_count=sc["cpu"], fault=fault)
+        got, info = execute(real_st, _real_values(vals, sc), ctx, opname)
+        gb = info.get("gb")
+        if gb is not None:
+            _repr_probe(gb, info)
+            features["key_repr"] = info.get("repr", "?")
+            if info.get("repr", "").startswith("chunked"):
+                probes.add("key_chunked_with_pointers")
+            threads = getattr(gb, "_max_threads_for_numba", None)
+            if threads and threads > 1 and not info.get("repr", "").startswith("chunked"):
+                probes.add("real_scale_multithread_blocks")
+        fired = ctx.fault_fired
+        if fired:
+            rec["faults"].append(fired)
+        tol = 0.0
+        if opname in ("sum", "mean") and sc["vdtype"] == "float64":
+            tol = 0.0  # small integers: every partial sum is exact
+        if base[0] == "raise":
+            if got[0] == "ok":
+                add("strategy_vs_baseline", "returns_vs_raises", f"raise {base[1]}: {base[2]}", compare.short(got[1]), exc=base[1])
+        elif got[0] == "raise":
+            if not fired:
+                add("strategy_vs_baseline", "raises_vs_returns", compare.short(base[1]), f"{got[1]}: {got[2]}", exc=got[1])
+        elif base[0] == "ok" and got[0] == "ok":
+            d = compare.diff(base[1], got[1], tol=tol)
+            if d is not None:
+                add("strategy_vs_baseline" if not fired else "fault_relaxed", "label_diff" if d.startswith(("labels", "index", "length", "columns", "container")) else "value_diff", compare.short(base[1]), d)
+        results.append((base[0], got[0], repr(got[1])[:2000] if got[0] == "ok" else got[1:]))
+        for c in (ctx,):
+            rec["ticks"] += c.ticks
+            rec["n_pools"] += c.n_pools
+            rec["interleavings"].extend(c.interleavings())
+            events.append(c.event_digest())
+            max_tasks = max(max_tasks, c.max_tasks)
+            for k_, v_ in c.stats.items():
+                if v_:
+                    probes.add(k_)
+            if c.stats.get("completion_order_not_fifo"):
+                not_fifo = True
+    rec["probes"] = sorted(probes)
+    rec["nontrivial"] = bool(n >= 1_000_000 and max_tasks >= 2 and not_fifo)
+    rec["digest"] = hashlib.blake2b(repr((cls, sc)).encode(), digest_size=8).hexdigest()
+    rec["events"] = hashlib.blake2b(repr(events).encode(), digest_size=8).hexdigest()
+    rec["result"] = hashlib.blake2b(repr(results).encode(), digest_size=8).hexdigest()
+    if cfg.get("want_sample"):
+        rec["sample"] = {"real_scale": sc, "fault": fault, "outcomes": [(r[0], r[1]) for r in results]}
     return rec
